@@ -19,8 +19,18 @@ theorems apply at every nesting depth.
 
 `Accepted len ps w` means: one of the three constructors, applied to the caller's
 list `ps`, returned the wrapper `w`.  64-bit `usize` is assumed.
+
+Sink-call level (second half of the file): `Wrapper.encodePieces` is
+`MessageWrapper::encode` as the SEQUENCE OF `ZeroCopySink` CALLS it makes
+(`append_copy` of each header word; per value `append_borrow` for `Cow::Borrowed`,
+`append_copy` for `Cow::Owned` / `&[u8]` / `&str`, the nested call sequence for a
+message); values are seen through `calls : V → Option (List Piece)` (`none` = the
+value's `to_rough_tlv` panics) and `bytesOf calls` is the byte-level `bytes` of the
+first half.  The lawfulness hypothesis `hl` of the first half is discharged for
+the value type of the `tlv` correspondence family (`dval_lawful`) and for nested
+messages of every depth (`nested_lawful_every_depth`).
 -/
-import Woodpile.Proofs.RoughTlvRt
+import Woodpile.Proofs.RoughTlvSink
 
 namespace Woodpile.Props.C11
 open Woodpile.RoughTlv
@@ -224,6 +234,92 @@ theorem sorted_reject_iff (len : V → Nat) (ps : List (Pair V)) :
           (by omega) (by simp [ha]) (by simp [hb])
         unfold key at this; omega
 
+/-! ### The sink-call level: borrowed / owned values, any `ZeroCopySink` -/
+
+open Woodpile.Hcobs (Method)
+
+/-- **The calls concatenate to the flat encoding.**  Whatever the values do
+(`calls`), if `encode` makes the calls `cs` on its sink then the byte-level encoder of
+the theorems above returns their concatenation; and when no value panics the two
+have the same verdict, `(encodePieces …).map flat = encode …` (`flat cs` is
+`cs.flatMap (·.2)`). -/
+theorem encode_pieces_flat (calls : V → Option (List Piece)) (len : V → Nat) (w : Wrapper V) :
+    (∀ cs, w.encodePieces calls len = some cs → w.encode (bytesOf calls) len = some (flat cs)) ∧
+    ((∀ p ∈ w.entries, (calls p.2).isSome = true) →
+      (w.encodePieces calls len).map flat = w.encode (bytesOf calls) len) ∧
+    (∀ cs : List Piece, flat cs = cs.flatMap (·.2)) :=
+  ⟨fun cs h => encodePieces_flat calls len w cs h, encodePieces_map_flat calls len w, flat_eq_flatMap⟩
+
+/-- **The call sequence of an accepted list**, for values that do not panic: with
+`es := stable sort of ps`, exactly `append_copy(N)`; `append_copy(offset_i)` for the
+`N-1` cumulative end offsets; `append_copy(tag_i)` for the `N` tags in ascending
+order; then every value's own calls, in order (a borrowed `Cow` is one
+`append_borrow` of its bytes, an owned one / a slice / a string one `append_copy`, a
+nested message its own call sequence).  No `assert!` fires. -/
+theorem encode_calls_layout (calls : V → Option (List Piece)) (len : V → Nat) (ps : List (Pair V))
+    (w : Wrapper V) (h : Accepted len ps w) (hs : ∀ p ∈ ps, (calls p.2).isSome = true) :
+    let es := sortByTag ps
+    w.encodePieces calls len = some (
+      ((Method.copy, le32 es.length) : Piece)
+      :: (List.range (es.length - 1)).map
+            (fun i => ((Method.copy, le32 ((es.take (i + 1)).map (fun p => len p.2)).sum) : Piece))
+      ++ es.map (fun p => ((Method.copy, le32 p.1.toNat) : Piece))
+      ++ (es.map (fun p => (calls p.2).getD [])).flatten) := by
+  intro es
+  have he : w.entries = es := h.spec.1
+  rw [h.calls_eq hs, he]
+  unfold callLayout
+  rw [offsetsSpec_eq]
+  simp only [List.length_map, List.map_map, Function.comp_def, ← List.map_take]
+  rfl
+
+/-- Call-level `len_eq`: over lawful, non-panicking values the calls hand the sink
+exactly `rough_tlv_len()` bytes, and they are the layout of `encode_layout`. -/
+theorem calls_len_eq (calls : V → Option (List Piece)) (len : V → Nat) (ps : List (Pair V))
+    (w : Wrapper V) (h : Accepted len ps w) (hl : ∀ p ∈ ps, CallsLawful calls len p.2)
+    (hs : ∀ p ∈ ps, (calls p.2).isSome = true) :
+    ∃ cs, w.encodePieces calls len = some cs ∧ w.encode (bytesOf calls) len = some (flat cs) ∧
+      (flat cs).length = w.tlvLen :=
+  h.calls hl hs
+
+/-- **Nesting, every depth.**  `NV d` is the type of values nested at most `d` deep
+(leaves: byte strings handed over by either sink method; inner nodes: messages);
+`NV.Ok` says every message inside was returned by a constructor.  Every such value
+is lawful - what it reports as `rough_tlv_len` is the number of bytes its calls
+write - and never panics.  (Structural induction on `d`; the step is the call-level
+`nested_lawful`.)  So `hl` holds for every list of `Ok` values of any depth. -/
+theorem nested_lawful_every_depth (d : Nat) (v : NV d) (h : NV.Ok d v) :
+    CallsLawful (NV.calls d) (NV.len d) v ∧ (NV.calls d v).isSome = true ∧
+    NV.len d v = (bytesOf (NV.calls d) v).length :=
+  ⟨NV.lawful d v h, NV.calls_isSome d v h, (NV.lawful d v h).bytes (NV.calls_isSome d v h)⟩
+
+/-- **`hl` discharged for the `tlv` family.**  In every state the family's state
+machine (`TlvSt.msg`, the function the model driver executes) can reach, every
+stored message was returned by a constructor on a list of lawful values; if it
+contains no never-encoded fake, the list satisfies the hypothesis `hl` of
+`encode_layout`, `len_eq`, `view_accepts`, `view_roundtrip`, `view_find`
+(`bytes := DVal.bytes`, `len := DVal.len`), none of its values panics, the encoder
+makes its calls (the driver's `panic` answer to `enc` is dead) and `MessageView`
+accepts what they write. -/
+theorem dval_lawful (s : TlvSt) (hr : TlvReach s) (i : Nat) (w : Wrapper DVal)
+    (hi : s.slots[i]? = some (some w)) :
+    (∃ ps, Accepted DVal.len ps w ∧ ∀ p ∈ ps, p.2.Lawful) ∧
+    (hasFake w = false →
+      ∃ ps, Accepted DVal.len ps w ∧ (∀ p ∈ ps, DVal.len p.2 = (DVal.bytes p.2).length) ∧
+        (∀ p ∈ ps, (DVal.calls p.2).isSome = true) ∧
+        ∃ cs, w.encodePieces DVal.calls DVal.len = some cs ∧
+          w.encode DVal.bytes DVal.len = some (flat cs) ∧ (flat cs).length = w.tlvLen ∧
+          View.new (flat cs) = some (.ok ⟨flat cs⟩)) := by
+  have hok := hr.slotOK i w hi
+  refine ⟨hok, fun hf => ?_⟩
+  obtain ⟨ps, ha, hl, hcl, hs⟩ := hok.hyps hf
+  obtain ⟨cs, h1, h2, h3⟩ := ha.calls hcl hs
+  obtain ⟨out, h4, h5⟩ := view_accepts DVal.bytes DVal.len ps w ha hl
+  rw [bytesOf_dval] at h2
+  rw [h2] at h4
+  cases h4
+  exact ⟨ps, ha, hl, hs, cs, h1, h2, h3, h5⟩
+
 end Woodpile.Props.C11
 
 namespace Woodpile.Props.C11
@@ -264,5 +360,29 @@ example : Wrapper.new Wrapper.tlvLen [((128 : UInt32), Wrapper.mk 13 [((7 : UInt
 example : (Wrapper.mk 21 [((128 : UInt32), Wrapper.mk 13 [((7 : UInt32), [(9 : UInt8)])])]).encode
       (Wrapper.bytes id List.length) Wrapper.tlvLen
     = some [1,0,0,0, 128,0,0,0, 1,0,0,0, 7,0,0,0, 9] := by decide
+
+-- The sink-call level.  The crate's Cow test (`test_encode_cow_miri`): a borrowed and an owned value.
+example : (Wrapper.mk 23 [((1 : UInt32), DVal.mk (some [(.borrow, [97,115,100])]) 3),
+      (2, DVal.mk (some [(.copy, [122,120,99,118])]) 4)]).encodePieces DVal.calls DVal.len
+    = some [(.copy, [2,0,0,0]), (.copy, [3,0,0,0]), (.copy, [1,0,0,0]), (.copy, [2,0,0,0]),
+        (.borrow, [97,115,100]), (.copy, [122,120,99,118])] := by decide
+-- a value that panics makes `encode` panic; an empty borrowed value is still a call
+example : (Wrapper.mk 12 [((1 : UInt32), DVal.mk none 0)]).encodePieces DVal.calls DVal.len = none := by decide
+example : (Wrapper.mk 12 [((1 : UInt32), DVal.mk (some [(.borrow, [])]) 0)]).encodePieces DVal.calls DVal.len
+    = some [(.copy, [1,0,0,0]), (.copy, [1,0,0,0]), (.borrow, [])] := by decide
+-- the family's state machine: two leaves, then a message nesting slot 0 twice (by reference and as a view)
+example :
+    ((TlvSt.init.msg .new [(2, .bytes .borrow [7]), (1, .bytes .copy [])]).bind fun (s, _) =>
+      (s.msg .sorted [(5, .msg 0), (6, .view 0)]).map fun (s', r) => (s'.slots.length, r.toOption.map (·.len))) =
+    some (2, some 50) := by decide
+example : TlvReach (TlvSt.mk [some ⟨17, [(1, ⟨some [(.copy, [])], 0⟩), (2, ⟨some [(.borrow, [7])], 1⟩)]⟩]) :=
+  .msg (s := TlvSt.init) (c := .new) (items := [(2, .bytes .borrow [7]), (1, .bytes .copy [])])
+    (r := .ok ⟨17, [(1, ⟨some [(.copy, [])], 0⟩), (2, ⟨some [(.borrow, [7])], 1⟩)]⟩) .init (by decide)
+-- a depth-2 value: a message holding a leaf and a message holding a leaf
+example : NV.calls 2 (.inr ⟨29, [(1, .inl (.borrow, [9])), (2, .inr ⟨9, [(3, (.copy, [8]))]⟩)]⟩)
+    = some [(.copy, [2,0,0,0]), (.copy, [1,0,0,0]), (.copy, [1,0,0,0]), (.copy, [2,0,0,0]), (.borrow, [9]),
+        (.copy, [1,0,0,0]), (.copy, [3,0,0,0]), (.copy, [8])] := by decide
+example : NV.Ok 1 (.inr ⟨9, [(3, (.copy, [8]))]⟩) :=
+  ⟨[(3, (.copy, [8]))], Or.inl (by rfl), by simp [NV.Ok]⟩
 
 end Woodpile.Props.C11
